@@ -589,7 +589,10 @@ where
 			if reverted_kernels.contains(&tx.id) && tx.parent_key_id == *parent_key_id {
 				tx.tx_type = TxLogEntryType::TxReverted;
 				tx.reverted_after = tx.confirmation_ts.clone().and_then(|t| {
+					#[cfg(not(feature = "verif_hooks"))]
 					let now = chrono::Utc::now();
+					#[cfg(feature = "verif_hooks")]
+					let now = crate::verif::now();
 					(now - t).to_std().ok()
 				});
 				tx.confirmed = false;
